@@ -87,7 +87,15 @@ mod ws_lock {
     pub struct ModelSession;
     impl ModelSession {
         pub fn set_seq(&mut self, _s: u64) {}
+        pub fn seq(&self) -> u64 {
+            0
+        }
     }
+    pub enum CheckpointCommand {
+        Create { label: ModelId, files: Vec<String> },
+        Rewind { id: ModelId },
+    }
+    pub use std::path::PathBuf;
     pub struct ModelLock(pub *mut World);
     pub struct ModelGuard(*mut World);
     impl ModelLock {
@@ -110,6 +118,21 @@ mod ws_lock {
     pub struct ModelRunner(pub *mut World);
     impl ModelRunner {
         pub fn run(&self, _id: &ModelId, seq: &mut u64, _inv: ModelInvocation) -> ModelEvents {
+            let w = unsafe { &mut *self.0 };
+            w.mutate();
+            *seq += 1;
+            ModelEvents(w.cur_actor)
+        }
+    }
+    impl ModelRunner {
+        pub fn create_checkpoint(&self, _id: &ModelId, seq: &mut u64, _label: ModelId, files: Vec<PathBuf>) -> ModelEvents {
+            core::mem::forget(files);
+            let w = unsafe { &mut *self.0 };
+            w.mutate();
+            *seq += 1;
+            ModelEvents(w.cur_actor)
+        }
+        pub fn rewind_checkpoint(&self, _id: &ModelId, seq: &mut u64, _cp: &ModelId) -> ModelEvents {
             let w = unsafe { &mut *self.0 };
             w.mutate();
             *seq += 1;
@@ -193,9 +216,13 @@ mod ws_lock {
             let mut seq = 0u64;
             let link = ModelLink;
             let _ = site2(&lock, &ModelRunner(wp), &ModelId, &mut seq, ModelInvocation, &ModelCall { name: ModelId }, &ModelSink(wp), Some(&link), &ModelStore(wp));
-        } else {
+        } else if site == 3 {
             let mode = if kani::any() { ToolTaskExecutionMode::Pipes } else { ToolTaskExecutionMode::Pty };
             site3(&lock, mode, u, u, u, u, u, u, u, u, u);
+        } else {
+            let mut session = ModelSession;
+            let command = if kani::any() { CheckpointCommand::Create { label: ModelId, files: Vec::new() } } else { CheckpointCommand::Rewind { id: ModelId } };
+            site4(&lock, &ModelRunner(wp), ModelId, command, &mut session, u, u, u);
         }
     }
 }
@@ -231,7 +258,7 @@ macro_rules! c11_two_executions {
             let mut mi = 0usize;
             while mi < w.n_mut {
                 let actor = w.mut_order[mi];
-                let writes_frame = (actor == 1 && $a_site != 3) || (actor == 2 && $b_site != 3);
+                let writes_frame = (actor == 1 && $a_site < 3) || (actor == 2 && $b_site < 3);
                 if writes_frame {
                     assert!(fi < w.n_frames && w.frame_order[fi] == actor, "side-effects frames are not in the order of the mutations");
                     fi += 1;
@@ -247,3 +274,5 @@ c11_two_executions!(c11_tool_vs_loop_tool, 1, 2, 2);
 c11_two_executions!(c11_loop_tool_vs_task, 2, 3, 1);
 c11_two_executions!(c11_task_vs_tool, 3, 1, 1);
 c11_two_executions!(c11_loop_tool_vs_loop_tool, 2, 2, 2);
+c11_two_executions!(c11_checkpoint_vs_tool, 4, 1, 1);
+c11_two_executions!(c11_task_vs_checkpoint, 3, 4, 0);
